@@ -516,7 +516,7 @@ theorem parseTop_all (uris : List Cps) (l : List Rule) (htop : TopOK l)
       have : (kindsOf done ++ [r.kind]).Sublist (kindsOf l) := by
         rw [hl]
         simp only [kindsOf, List.map_append, List.map_cons]
-        exact List.Sublist.append_left (List.Sublist.cons₂ _ (List.nil_sublist _)) _
+        exact List.Sublist.append_left (List.Sublist.cons_cons _ (List.nil_sublist _)) _
       exact topK_sublist htop this
     have hfresh : r.kind = .ns → r.pre ∉ (nsPairs done).map (·.1) := by
       intro hkind hmem
